@@ -12,14 +12,16 @@ CHECKS = {
   "text": "HexISA.tla (transcribed from hexb.pdf) is model-checked by TLC at 16-bit width, and every recorded hexsim step "
           "(256 instruction bytes x seeded corner/random states, system-call grid) and whole run (random instruction-level "
           "programs, repository programs) is validated by TLC against HexISA!Step: registers after every instruction, "
-          "memory writes, I/O, exit value. A corrupted canary record must be rejected in every run.",
+          "memory writes, I/O, exit value. The longest program at hand (the X compiler written in X compiling a source, 1.3M / 13M instructions) "
+          "is validated in independently judged segments (IsaSegV); hexsim's loader against BinFormat!Loaded. A corrupted canary record must be rejected in every run.",
   "note": "Trusts the transcription of hexb.pdf into HexISA.tla, TLC, and the HEX_VERIF recorder; 32-bit register space is "
           "sampled (corners + seeded random), not enumerated."},
  "C04": {"level": "model_checking", "design_ref": "DESIGN.md 2.3, 5 (C04)",
   "technique": "TLC evaluation of the encoder round trip over value classes + TLC validation of hexasm's emitted prefix chains",
   "text": "AsmEncode!ChainOK (the ISA's own PFIX/NFIX rule) is the oracle. TLC checks the assembler-shaped encoder for every 16-bit value "
           "and for the 32-bit nibble-class grid; every chain hexasm emits for 12 mnemonics x boundary/random values x both literal forms is "
-          "decoded by TLC from the image and must present exactly the source value, a wrong length derailing the walk.",
+          "decoded by TLC from the image and must present exactly the source value, a wrong length derailing the walk; the same operands in other "
+          "lexical surroundings (end of file without newline, adjacent comment, tabs, leading zeros).",
   "note": "2^32 values are covered by classes and seeded samples, not enumerated (TLC: 21k values/s/JVM). Trusts Word.tla arithmetic."},
  "C05": {"level": "model_checking", "design_ref": "DESIGN.md 2.3, 5 (C05)",
   "technique": "TLC model checking of the relaxation mechanism at scaled radix + TLC validation of emitted images against the source directive list",
@@ -33,15 +35,17 @@ CHECKS = {
           "source, for the C05 families, the shipped .S files and xcmp -S of tests/x.",
   "note": "Pure trace validation (states/transitions are nominal). The final 'N bytes' line is not judged (the property does not mention it)."},
  "C01": {"level": "model_checking", "design_ref": "DESIGN.md 2.4, 5 (C01), Appendix C",
-  "technique": "XLang.tla (X definition as a small-step machine) executed by TLC on each generated program; compiled binaries' observable behaviour validated against it",
+  "technique": "XLang.tla (X definition as a small-step machine) executed by TLC on each generated program and, through XSyntax/XFold/XText, on source text; compiled binaries' observable behaviour validated against it; XFrames model checking",
   "text": "The oracle is a specification that is total over the property's domain: XLang decides definedness and the behaviour (writes per "
           "channel, input consumed, exit value); xcmp+hexsim must reproduce it for the operator x leaf-kind x context enumeration, structural "
-          "templates and seeded random programs. Undefined programs are counted, never judged.",
+          "templates, seeded random programs, source texts (repository programs and token-level variations, parsed and translated inside the "
+          "specification) and programs named after every identifier-shaped label the compiler generates. Undefined programs are counted, never judged.",
   "note": "Trusts the reading of xhexnotes.pdf in XLang.tla (DESIGN Appendix C) and the AST printer; bounded program size, fuel and depth."},
  "C07": {"level": "model_checking", "design_ref": "DESIGN.md 5 (C07)",
-  "technique": "placement families (constant vs run-time operands) compiled and compared; XLang machine mode run by TLC defines domain and reference value",
+  "technique": "TLC theorems FoldSound / OptSound (XFoldMC: compile-time arithmetic and rewritings agree with XLang) + placement families (constant vs run-time operands) compiled and compared; XLang machine mode run by TLC defines domain and reference value",
   "text": "All placements of one (expression tree, boundary valuation) must behave identically; depth-1 trees exhaustive over operators x "
-          "19x19 boundary values, deeper trees seeded; TLC validates every placement against XLang (wrap-around arithmetic).",
+          "19x19 boundary values, deeper trees seeded (run-time leaves include a local hiding a global val); TLC validates every placement against XLang "
+          "(wrap-around arithmetic); the compiler's --tree / --tree-opt output is bound to XFold (drift grade).",
   "note": "Agreement is the property; a family agreeing with itself but not with XLang is counted only. 32-bit operand space sampled at boundaries."},
  "C08": {"level": "model_checking", "design_ref": "DESIGN.md 5 (C08)",
   "technique": "TLC executes each compiled image under HexISA with region/stack invariants evaluated at every instruction (IsaRegionV)",
@@ -57,36 +61,39 @@ CHECKS = {
  "C09": {"level": "exploration", "design_ref": "DESIGN.md 5 (C09), 6",
   "technique": "TLC-defined input space (Unusual.tla) + mutants + random bytes into an ASan/UBSan build; outcome records validated by TLC against ToolRun!LibConforms",
   "text": "The structured input space (semantically unusual programs) is a TLA+ set; crashes, sanitizer reports and CPU-budget hangs are observed, "
-          "and every outcome must be Accept (binary, no diagnostic) or Reject (diagnostic, nothing written) per ToolRun.tla.",
+          "and every outcome must be Accept (binary, no diagnostic) or Reject (diagnostic, nothing written) per ToolRun.tla. Scale inputs (Unusual!XScaleShapes: "
+          "nesting, chain, token, list lengths up to 150,000 / 1,000,000) go through the real executable with an 8 MiB stack; the front end is bound to XSyntax/XFold (drift grade).",
   "note": "Undefined behaviour is detected by sanitizers on explored inputs, not decided by the specification; uninitialised reads only via C11. "
           "Exploration level: no claim beyond the inputs tried."},
  "C10": {"level": "exploration", "design_ref": "DESIGN.md 5 (C10), 6",
   "technique": "TLC-enumerated input space (Unusual.tla, exhaustive) + mutants + random bytes into an ASan/UBSan build; TLC termination check of the relaxation model; outcomes validated against ToolRun!LibConforms",
   "text": "All of Unusual!AsmPrograms, mutants of shipped .S files, random bytes and coupled layouts are assembled in an ASan/UBSan build; "
-          "termination of layout is model-checked on AsmRelax (radix 2) and observed by CPU budget on the code.",
+          "termination of layout is model-checked on AsmRelax (radix 2) and observed by CPU budget on the code; scale inputs (Unusual!AScaleShapes) through the "
+          "real executable; the parser is bound to AsmSyntax (drift grade).",
   "note": "As C09."},
  "C14": {"level": "model_checking", "design_ref": "DESIGN.md 2.5, 5 (C14)",
   "technique": "TLC model checking and complete enumeration of ToolRun.tla's invocation space; every shape replayed against the executables and validated with ToolRun!Conforms",
   "text": "The finite invocation space (tool x source class x -o spelling x position x pre-existing target; exit values for xrun/hexsim) is "
-          "enumerated completely by TLC and each shape (with several source representatives per class) is executed against the built tools.",
+          "enumerated completely by TLC and each shape (with several source representatives per class, sources with exactly 256 / 512 faults, run options of "
+          "the simulators, file-stream readers) is executed against the built tools; every display option on every source class against ToolRun!ActionsConform.",
   "note": "Exhaustive over the modelled space only; representatives stand for source classes."},
  "C03": {"level": "model_checking", "design_ref": "DESIGN.md 2.2, 5 (C03)",
   "technique": "TLC refinement check HexRTL => HexISA at reduced widths (exhaustive) + TLC validation of Verilated processor.sv clocks and whole runs against HexISA",
   "text": "The truncated adders of the RTL agree with 32-bit wrap-around arithmetic inside the common range: decided exhaustively by TLC on the "
           "register-transfer specification at scaled widths, and bound to the Verilated code per clock (grid, sequences) and per run (one "
-          "instruction per clock from reset, registers after every clock).",
+          "instruction per clock from reset, registers after every clock; the X compiler written in X on the Verilated system in independently judged segments).",
   "note": "Trusts Verilator's translation and HexRTL's reading of processor.sv (cross-checked: every recorded clock conforms to HexRTL). "
           "System calls in whole runs are serviced by the harness shim."},
  "C11": {"level": "exploration", "design_ref": "DESIGN.md 2.5, 5 (C11)",
   "technique": "TLC validation of observation histories against Determinism.tla (key = source text)",
   "text": "Sources are compiled/assembled in one process in several orders with dirtied heaps under MALLOC_PERTURB_, and through the "
-          "executables under environment padding / ASLR toggling; any two observations of one source must be byte-identical.",
+          "executables under environment padding / ASLR toggling / malloc tunables / a digit-grouping locale; any two observations of one source must be byte-identical.",
   "note": "Exploration: only the configurations tried. Stack-content dependence is provoked only by preceding compilations in the same process."},
  "C12": {"level": "model_checking", "design_ref": "DESIGN.md 2.5, 5 (C12)",
   "technique": "TLC validation of hexsim runs against HexISA (unwritten memory = 0 by definition) + Determinism.tla histories over host-memory states, -t and --max-cycles",
   "text": "Every run (images that read words they never wrote included) under dirty/clean placement, MALLOC_PERTURB_, -t and cycle limits is "
           "compared with the HexISA behaviour after the same number of instructions, and all observations of one (image, input, options) key must agree.",
-  "note": "How many instructions --max-cycles N admits is not judged. Executable-level input consumption is not observed."},
+  "note": "How many instructions --max-cycles N admits is not judged. Executable-level input consumption = offset of a seekable standard input after exit."},
  "C16": {"level": "model_checking", "design_ref": "DESIGN.md 2.2, 5 (C16)",
   "technique": "TLC validation of three Verilated builds against HexRTL on identical stimulus + byte-identity of their records + text identity of the two .v copies",
   "text": "processor.sv, verilog/processor.v and synth/processor.v are stepped stand-alone on identical stimulus (all 256 bytes, out-of-range "
@@ -96,12 +103,13 @@ CHECKS = {
  "C06": {"level": "model_checking", "design_ref": "DESIGN.md 5 (C06)",
   "technique": "TLC validation of hexsim AND hextb records of the same binary against HexISA (SimV) + Determinism.tla over both, incl. the executables",
   "text": "Both implementations are validated against one deterministic definition (HexISA) on binaries whose precondition (never reads "
-          "unwritten memory) is decided by the specification's ghost sets; the built hexsim/hextb executables are compared on stdout after the banner and exit status.",
-  "note": "Input consumption observed in process only. hextb runs use hextb.cpp's own load()/run() through the HEX_VERIF hook."},
+          "unwritten memory) is decided by the specification's ghost sets; the built hexsim/hextb executables are compared on stdout after the banner, "
+          "stream files, exit status and the offset of a seekable standard input, the xhexb compiler and its products included.",
+  "note": "hextb runs use hextb.cpp's own load()/run() through the HEX_VERIF hook."},
  "C13": {"level": "model_checking", "design_ref": "DESIGN.md 2.2, 5 (C13)",
   "technique": "TLC model checking of HexTB over all power-on states of a small instance + TLC validation of recorded hextb half-cycle traces (TbV) + Determinism.tla across seeds/planted states",
   "text": "The reset protocol is a state-space question: TLC visits every power-on state (registers, non-image memory words from adversarial "
           "words) of a scaled instance and checks Quiescent/StartState/PowerOnIndependent; the real hextb run() is driven from planted "
-          "adversarial states and many seeds and its records validated against the same spec.",
+          "adversarial states and many seeds and its records validated against the same spec; hextb's loader against BinFormat under several power-on states.",
   "note": "Power-on states of the real model are those reachable by planting and +verilator+seed. Reset window timing is mechanism grade."},
 }
